@@ -16,7 +16,7 @@ RULE = ("Hypothesis-generated training lists (short alphabets so that characters
         "generated strings). Oracle (3-way differential): find_omen_level(trainer) == OmenScorer.parse == the fourth field PCFGPasswordScorer.parse reports (whatever category it files the string under; e-mail and web-site strings are added to the lists) == guesser level, where the "
         "guesser level is (a) the independent level formula over the tables loaded by the real load_rules and (b) for levels whose "
         "reference size is <= 20000, membership in the real MarkovCracker's output at exactly that level and at no other "
-        "enumerated level; omen_pws_per_level.txt must equal the tally of the trainer's levels over the list. Non-trivial = a "
+        "enumerated level, and (c) for those levels the generator's whole output against the independent reference enumeration of the level over the loaded tables; omen_pws_per_level.txt must equal the tally of the trainer's levels over the list. Non-trivial = a "
         "candidate with a defined level >= 1 or a boundary length; distinct = hash of (ruleset options, candidate).")
 ASSUMPTIONS = ["a run in which the trainer does not complete is skipped and counted"]
 
@@ -97,6 +97,14 @@ def prop(case, rec):
             if len(out_l) > 60000:
                 raise Violation('never_exhausts', f'level {L}', case)
         level_sets[L] = set(out_l)
+        # every string that the three level functions put at this level, not only the candidates below: the reference enumeration
+        # over the tables the guesser loaded
+        ref = omen_ref.enumerate_level(gm, L, cap=20000)
+        if ref is not None and set(ref) != level_sets[L]:
+            miss, extra = sorted(set(ref) - level_sets[L])[:4], sorted(level_sets[L] - set(ref))[:4]
+            ex = (miss or extra)[0]
+            raise Violation('generator_level', f'level {L}: the real Markov generator emits {len(level_sets[L])} strings, the level holds {len(set(ref))} by the loaded tables; '
+                            f'not emitted {miss}, emitted but of another level {extra} (trainer says {find_omen_level(T, ex)} for {ex!r})', case)
     # ---- candidates
     cands = list(dict.fromkeys(pws))
     gen = [s for L in sorted(level_sets) for s in sorted(level_sets[L])[:15]]
@@ -117,7 +125,7 @@ def prop(case, rec):
         lg = omen_ref.level_of(gm, s)
         with core.quiet():
             rep = guard(case, full.parse, s)
-        cls = ['scorer_category_' + str(rep[1])]
+        cls = ['scorer_category_' + str(rep[1])] + (['lengths_sharing_one_level'] if case.get('style') == 'chains' else [])
         if rep[3] != ls:
             raise Violation('scorer_report', f'string {s!r}: password scorer reports {rep!r}: OMEN level {rep[3]}, its OMEN tables say {ls} (trainer {lt})', dict(case, extra=[s]))
         if len(s) in (n - 1, n, n + 1, 21, 22, 0):
@@ -151,7 +159,22 @@ def prop(case, rec):
 def cases(draw):
     from .c19 import valid_password, encodable
     enc = draw(st.sampled_from(['utf-8', 'utf-8', 'latin-1', 'cp1251', 'ascii']))
-    style = draw(st.sampled_from(['short', 'short', 'mixed']))
+    style = draw(st.sampled_from(['short', 'short', 'mixed', 'chains']))
+    if style == 'chains':
+        # four lengths with the same share of the list (one LN level holds them all), every transition certain (CP level 0),
+        # initial n-grams of very different frequency: a string's level is its IP level plus the shared length level
+        cyc = draw(st.sampled_from(['abcdefgh', 'abcde', '1a2b3c']))
+        ng = draw(st.sampled_from([2, 3]))
+        l0 = ng + draw(st.integers(1, 3))
+        entries = []
+        for ln in range(l0, l0 + 4):
+            starts = draw(st.lists(st.integers(0, len(cyc) - 1), min_size=2, max_size=3, unique=True))
+            for j, s0 in enumerate(starts):
+                p = (cyc * 6)[s0:s0 + ln]
+                if p not in [e[0] for e in entries]:
+                    entries.append([p, 4 if j == 0 else 1])
+        return {'entries': entries, 'encoding': 'utf-8', 'ngram': ng, 'alphabet_size': draw(st.sampled_from([100, 10])),
+                'spelling': draw(st.sampled_from(trainer.SPELLINGS)), 'style': 'chains'}
     n = draw(st.integers(3, 25))
     entries, seen = [], set()
     letters = 'abc1' + ('é' if enc in ('utf-8', 'latin-1') else '') + ('я' if enc in ('utf-8', 'cp1251') else '')
